@@ -27,7 +27,7 @@ func init() {
 			"Per run: a pool of 5..16 ed25519 validators from the tape, powers from {ones, equal, small, medium, large, near 2^62/n, one extreme, all extreme}; " +
 			"(1) NewValidatorSet from permuted lists and by Add in permuted order: same order, Hash, proposer, priorities as a math/big reference; " +
 			"(2) a history of 8..40 operations (rotate by k in place or on a copy, add/update/remove present and absent members, getters) with the reference compared after every operation, " +
-			"Hash a function of membership/key/coinbase/power only; (3) EXHAUSTIVE path independence: from the state reached, every composition of T rotations (T 6..11 quick, 10..14 thorough; 2^T-1 call sequences, " +
+			"Hash a function of membership/key/coinbase/power only; (3) EXHAUSTIVE path independence: from the state reached, every composition of T rotations (T 6..12 quick, 11..15 thorough; 2^T-1 call sequences, " +
 			"every prefix compared) must give the proposer and priorities of T single rotations; (4) proposer counts over windows of c*total rotations within n of proportional (small powers); " +
 			"(5) BlockExecutor.ApplyBlock (updateStatus) with every order (all permutations up to 4 entries, else 6 sampled) of the same application validator list, and a status saved and re-loaded: same next set; " +
 			"(6) with extreme powers totals equal the clamped exact sum and every priority stays inside the range spanned by saturating arithmetic (never wraps). " +
@@ -38,9 +38,11 @@ func init() {
 		Assumptions: []string{
 			"equality with the reference is demanded only where no int64 operation can saturate (max|priority| + k*total < 2^63); beyond that only 'saturate, never wrap' is demanded",
 			"validator lists handed to NewValidatorSet/updateStatus have distinct addresses and positive powers (what the application produces)",
+			"ties between equal priorities go to the lower address (types.Validator.CompareAccum); the reference uses the same rule",
+			"one call IncrementAccum(k) is additionally held to the order-free accounting of k rotations (everybody gains k*power, k proposers pay the total each), which any weighted round robin of this form satisfies",
 			"the frequency bound uses |count_i - W*p_i/total| < n, which follows from sum(priorities)=0 and the proposer paying exactly the total",
 		},
-		QuickRuns: 1600, ThoroughRuns: 24000, QuickBudget: 50 * time.Second, ThoroughBudget: 15 * time.Minute,
+		QuickRuns: 8000, ThoroughRuns: 60000, QuickBudget: 50 * time.Second, ThoroughBudget: 15 * time.Minute,
 		Run: run,
 	})
 }
@@ -112,6 +114,9 @@ func run(c *kernel.Ctx) {
 		s.pool = append(s.pool, &mVal{addr: a, pub: pk, cb: cb, power: s.drawPower(t, poolSize, eq, len(s.pool)), accum: new(big.Int)})
 	}
 	c.Finger(s.regime, n)
+	if s.extreme() {
+		c.Fault("input/extreme-powers")
+	}
 	for _, v := range s.pool[:n] {
 		c.Finger(v.power)
 	}
@@ -333,11 +338,63 @@ func newSorted(v []*mVal) []*mVal {
 
 // ------------------------------------------------------------ rotations
 
+// accounting checks what k rotations mean whatever their order: everybody
+// gained k times its power, k proposers were chosen and each choice cost the
+// chosen one exactly the total power. (Holds for one call and for any split;
+// it keeps the one-call path under test although its choice of proposers is a
+// known finding.) Only meaningful where nothing saturates.
+func accounting(pre []int64, S *types.ValidatorSet, k int) string {
+	tot := big.NewInt(0)
+	for _, v := range S.Validators {
+		tot.Add(tot, big.NewInt(v.VotingPower))
+	}
+	if len(pre) != len(S.Validators) || tot.Sign() <= 0 {
+		return "membership-changed"
+	}
+	paid := new(big.Int)
+	for i, v := range S.Validators {
+		d := new(big.Int).Mul(big.NewInt(v.VotingPower), big.NewInt(int64(k)))
+		d.Add(d, big.NewInt(pre[i]))
+		d.Sub(d, big.NewInt(v.Accum))
+		if d.Sign() < 0 {
+			return "gained-more-than-k-times-power"
+		}
+		if new(big.Int).Mod(d, tot).Sign() != 0 {
+			return "paid-a-fraction-of-the-total"
+		}
+		paid.Add(paid, d)
+	}
+	if paid.Cmp(new(big.Int).Mul(tot, big.NewInt(int64(k)))) != 0 {
+		return "not-k-proposers-paid"
+	}
+	p := S.GetProposer()
+	for _, v := range S.Validators {
+		if string(v.Address) == string(p.Address) {
+			return ""
+		}
+	}
+	return "proposer-not-a-member"
+}
+
+func accums(S *types.ValidatorSet) []int64 {
+	out := make([]int64, len(S.Validators))
+	for i, v := range S.Validators {
+		out[i] = v.Accum
+	}
+	return out
+}
+
 // rotate performs IncrementAccum(k) on S and the reference on M.
 func (s *state) rotate(S *types.ValidatorSet, M *mSet, k int, kind string) bool {
 	c := s.c
 	if M.safe(k) {
+		pre := accums(S)
 		S.IncrementAccum(k)
+		if why := accounting(pre, S, k); why != "" {
+			if c.Violate("rotation", "rotation/accounting/"+why, "IncrementAccum(%d): %s (priorities %v -> %v)", k, why, pre, accums(S)) {
+				return false
+			}
+		}
 		for i := 0; i < k; i++ {
 			M.step()
 		}
@@ -370,6 +427,7 @@ func (s *state) rotate(S *types.ValidatorSet, M *mSet, k int, kind string) bool 
 	}
 	// saturating territory: demand "never wraps", not a particular order of clamps
 	c.Probe("rotation-in-saturating-range")
+	c.Fault("input/rotation-that-saturates")
 	c.Evals(1)
 	pre := make([]int64, len(S.Validators))
 	for i, v := range S.Validators {
@@ -474,6 +532,9 @@ func (s *state) history() bool {
 			v := s.pool[t.Int(len(s.pool))].copy()
 			v.accum = big.NewInt(randAccum())
 			had := inSet(v.addr)
+			if had {
+				c.Fault("input/add-present-member")
+			}
 			s.ops = append(s.ops, fmt.Sprintf("add(%s,%d) present=%v", short(v.addr), v.power, had))
 			got := s.S.Add(v.real())
 			if got == had {
@@ -498,6 +559,9 @@ func (s *state) history() bool {
 			}
 			v.accum = big.NewInt(randAccum())
 			had := inSet(v.addr)
+			if !had {
+				c.Fault("input/update-absent-member")
+			}
 			s.ops = append(s.ops, fmt.Sprintf("update(%s,%d) present=%v", short(v.addr), v.power, had))
 			got := s.S.Update(v.real())
 			if got != had {
@@ -517,6 +581,9 @@ func (s *state) history() bool {
 			had := inSet(v.addr)
 			if had && len(s.M.vals) == 1 {
 				continue
+			}
+			if !had {
+				c.Fault("input/remove-absent-member")
 			}
 			s.ops = append(s.ops, fmt.Sprintf("remove(%s) present=%v", short(v.addr), had))
 			rv, got := s.S.Remove([]byte(v.addr))
@@ -594,9 +661,9 @@ func (s *state) history() bool {
 func (s *state) splits() (ok, ran bool) {
 	c := s.c
 	t := c.Tape.Fork("split")
-	T := t.Range(6, 11)
+	T := t.Range(6, 12)
 	if c.Tier == kernel.Thorough {
-		T = t.Range(10, 14)
+		T = t.Range(11, 15)
 	}
 	for T > 0 && !s.M.safe(T) {
 		T--
@@ -620,6 +687,12 @@ func (s *state) splits() (ok, ran bool) {
 			C := S.Copy()
 			C.IncrementAccum(k)
 			nodes++
+			if why := accounting(accums(S), C, k); why != "" {
+				if c.Violate("rotation", "rotation/accounting/"+why, "IncrementAccum(%d) after %v: %s (priorities %v -> %v)", k, path, why, accums(S), accums(C)) {
+					stop = true
+					return
+				}
+			}
 			p := append(path, k)
 			stepwise := true
 			for _, x := range p {
